@@ -13,6 +13,7 @@ import (
 	"path"
 	"sort"
 	"strings"
+	"syscall"
 	"time"
 
 	billy "github.com/go-git/go-billy/v6"
@@ -78,6 +79,21 @@ func (f *FS) tick() time.Time {
 
 func notExist(op, p string) error { return &fs.PathError{Op: op, Path: p, Err: fs.ErrNotExist} }
 
+// missing is the error for a path that does not resolve: ENOTDIR when one of
+// its proper ancestors exists and is not a directory (as a POSIX filesystem
+// reports it; os.IsNotExist is false for it), otherwise "does not exist".
+func (f *FS) missing(op, name, abs string) error {
+	for a := path.Dir(abs); a != "/" && a != "."; a = path.Dir(a) {
+		if n := f.Nodes[a]; n != nil {
+			if !n.Dir && n.Mode&fs.ModeSymlink == 0 {
+				return &fs.PathError{Op: op, Path: name, Err: syscall.ENOTDIR}
+			}
+			break
+		}
+	}
+	return notExist(op, name)
+}
+
 // resolve follows symlinks in all components (final too when follow is set).
 func (f *FS) resolve(p string, follow bool) (string, *Node) {
 	for depth := 0; depth < 16; depth++ {
@@ -137,7 +153,10 @@ func (f *FS) OpenFile(filename string, flag int, perm fs.FileMode) (billy.File, 
 	rp, n := f.resolve(p, true)
 	if n == nil {
 		if flag&os.O_CREATE == 0 {
-			return nil, notExist("open", filename)
+			return nil, f.missing("open", filename, p)
+		}
+		if err := f.missing("open", filename, p); !errors.Is(err, fs.ErrNotExist) {
+			return nil, err // a regular file is in the way of a parent directory
 		}
 		f.mutate()
 		f.mkParents(rp)
@@ -170,7 +189,7 @@ func (f *FS) Stat(filename string) (fs.FileInfo, error) {
 	f.log("stat", p, "")
 	rp, n := f.resolve(p, true)
 	if n == nil {
-		return nil, notExist("stat", filename)
+		return nil, f.missing("stat", filename, p)
 	}
 	return &Info{name: path.Base(rp), node: n}, nil
 }
@@ -180,7 +199,7 @@ func (f *FS) Lstat(filename string) (fs.FileInfo, error) {
 	f.log("lstat", p, "")
 	rp, n := f.resolve(p, false)
 	if n == nil {
-		return nil, notExist("lstat", filename)
+		return nil, f.missing("lstat", filename, p)
 	}
 	return &Info{name: path.Base(rp), node: n}, nil
 }
